@@ -179,6 +179,10 @@ EmitInfo == cls = Id0 => PrintT("INFO " \o ToJson(Info))
 \* configurations of the library call
 Configs == [route : {"matrix", "diagram"}, style : {"alpha", "alphanum"}, diag : BOOLEAN, inf : {"zero", "neg"}]
 ASSUME PrintT("CFG " \o ToJson(Configs))
+\* the diagram route documents its argument as "an iterable of tuples": the same edges handed over in
+\* each of these packagings (containers and one-shot iterables) denote the same Coxeter group
+DiagramContainers == {"list", "tuple", "generator", "zip", "iterator", "map"}
+ASSUME PrintT("DGC " \o ToJson(DiagramContainers))
 
 \* hyperbolic triangle groups: vertex i has interior angle pi/label, ideal iff the label is 0
 HypTriples == {t \in TriLabels \X TriLabels \X TriLabels : TriType(t[1], t[2], t[3]) = "hyperbolic"}
